@@ -4,6 +4,7 @@
 then stores it under /verif/seeded/<id>-m<k>/ with meta.json."""
 import sys, os, subprocess, json, shutil, xml.etree.ElementTree as ET
 pid, k = sys.argv[1], sys.argv[2]
+dk = sys.argv[3] if len(sys.argv) > 3 else k      # index under /verif/seeded (the sub-agent numbers its changes from 1)
 wt = "/tmp/wt/%s" % pid
 out = "/tmp/seeded_out/%s" % pid
 patch = "%s/m%s.patch.diff" % (out, k)
@@ -40,14 +41,14 @@ print(json.dumps(verdict, indent=1))
 good = (not missing) and rc0 == 0 and rc1 == 1
 print("CONFIRMED" if good else "REJECTED")
 if good:
-    dst = "/verif/seeded/%s-m%s" % (pid, k)
+    dst = "/verif/seeded/%s-m%s" % (pid, dk)
     os.makedirs(dst, exist_ok=True)
     shutil.copy(patch, dst + "/patch.diff")
     shutil.copy(demo, dst + "/demo.py")
     notes = open("%s/m%s.notes.md" % (out, k)).read() if os.path.exists("%s/m%s.notes.md" % (out, k)) else ""
-    meta = {"id": "%s-m%s" % (pid, k), "breaks_property": pid, "needs_to_manifest": "see notes.md (written by the sub-agent that produced the change)",
+    meta = {"id": "%s-m%s" % (pid, dk), "breaks_property": pid, "needs_to_manifest": "see notes.md (written by the sub-agent that produced the change)",
             "confirmed_by": "harness/confirm_seed.py in scratch worktree %s" % wt, "confirmation": verdict,
-            "how_to_run": "git -C /repo apply seeded/%s-m%s/patch.diff && ./check %s ; git -C /repo checkout -- ." % (pid, k, pid),
+            "how_to_run": "git -C /repo apply seeded/%s-m%s/patch.diff && ./check %s ; git -C /repo checkout -- ." % (pid, dk, pid),
             "demo_output_with_patch_tail": o1[-600:]}
     json.dump(meta, open(dst + "/meta.json", "w"), indent=1)
     open(dst + "/notes.md", "w").write(notes)
